@@ -183,6 +183,8 @@ func genC18(cs *CaseSet, rng *Rng, tier string, dir string) {
 					parent = 77 // reply to an article that does not exist
 				}
 				title := noLeadingLF(dataBytes(rng, rng.Pick(0, 1, 12, 200, 255)))
+				// the poster is the connection's display name: up to 255 bytes, like the title
+				admin.UserName = noLeadingLF(dataBytes(rng, rng.Pick(1, 8, 8, 200, 255)))
 				data := noLeadingLF(dataBytes(rng, rng.Pick(0, 1, 40, 600, 3000)))
 				if lfProfile {
 					title, data = append([]byte("\n"), title...), append([]byte("\n\n"), data...)
